@@ -63,6 +63,15 @@ class Kinds:
         self.memo = {}
         self.decls = {}
         self.loopvars = {}
+        # parameters whose kind is fixed by the function's contract (the same table the call sites are checked against)
+        pk = dict(PARAM_KINDS.get(fn.get("qn", ""), {}))
+        if fn.get("qn") == "node::set_coupled_node_and_min_distance":
+            pk = {0: CIDX, 1: NIDX}
+        if pk and fn.get("qn") != "node::set_coupled_node_and_min_distance" and len(fn.get("params", [])) != len(pk):
+            pk = {}      # another overload (e.g. get_face(n1, n2, n3))
+        for i_, p_ in enumerate(fn.get("params", [])):
+            if i_ in pk and p_.get("did") is not None:
+                self.memo[p_["did"]] = pk[i_]
         if isinstance(fn.get("body"), dict):
             for n in walk(fn["body"]):
                 if n.get("k") in ("Var", "Decomposition") and "did" in n:
@@ -192,6 +201,19 @@ def id_kinds(rep, prog):
                     else:
                         rep.violation("C08.id-kinds", prog, fn, n, "comparison of %s with %s" % (a, b),
                                       "%s compares a %s with a %s: the two numberings coincide only until the first division or removal of a cell" % (short(n, 90), a, b))
+            elif k == "CXXOperatorCallExpr" and n.get("op") == "=" and len(n.get("c", [])) == 3:
+                # a (node index, distance) record of the coupling map receives a pair: its first element must be a node index
+                K = K or Kinds(prog, fn)
+                rhs_ = strip(n["c"][2])
+                while rhs_.get("k") in ("CXXConstructExpr", "MaterializeTemporaryExpr", "CXXBindTemporaryExpr", "ImplicitCastExpr", "ExprWithCleanups", "CXXFunctionalCastExpr") and len([c_ for c_ in rhs_.get("c", []) if isinstance(c_, dict)]) == 1:
+                    rhs_ = strip([c_ for c_ in rhs_["c"] if isinstance(c_, dict)][0])
+                lk, rk = K.kind(n["c"][1]), K.kind(rhs_)
+                if isinstance(lk, tuple) and lk[0] == "PAIR" and isinstance(rk, tuple) and rk[0] == "PAIR" and lk[1] and scalar(rk[1]):
+                    if scalar(rk[1]) == lk[1]:
+                        rep.ok("C08.id-kinds", prog, fn, n, "%s: the stored pair starts with a %s" % (short(n, 60), lk[1]))
+                    else:
+                        rep.violation("C08.id-kinds", prog, fn, n, "coupling record receives a %s as its node index" % scalar(rk[1]),
+                                      "%s stores a %s in the first element of a coupling record, which is read back as the index of the partner NODE in the partner cell's node list: the stored reference designates a foreign (or dead, or out-of-range) node slot" % (short(n, 90), scalar(rk[1])))
             elif k == "CXXOperatorCallExpr" and n.get("op") == "[]" and len(n.get("c", [])) == 3:
                 cont = strip(n["c"][1])
                 t = cont.get("t", "")
